@@ -196,7 +196,9 @@ def run(tier, seed):
         raise C.InfraError("no asm sessions")
     asess = sorted(asms[0], key=lambda x: json.dumps(x, sort_keys=True))
     if tier == "quick":
-        asess = rnd.sample(asess, 120)
+        # (the sessions of label blocks and of blocks that place nothing start with their asm command: always run)
+        must = [x for x in asess if x[0]["k"] == "asm"]
+        asess = must + rnd.sample([x for x in asess if x[0]["k"] != "asm"], 120)
     syp = C.parse_payload(gb.lines, "SYMS ")
     if not syp or len(syp[0]["sessions"]) < 30:
         raise C.InfraError("no symbol sessions")
